@@ -48,7 +48,7 @@ theorem T04_pauli_twirl (conj : α →+* α) (I : α) (hI : I * I = -1) (hcI : c
     (qs : List Nat) (hn : qs.Nodup) (ρ : DM α) (x y : Lab) :
     ((pauliCodes qs.length).map
         (fun c => applyGateDM conj { mat := pauliStringMat I c, targets := qs } ρ x y)).sum
-      = 2 ^ qs.length * (if qs.all (fun q => x q == y q) then ptrace qs ρ x y else 0) :=
+      = 2 ^ qs.length * (if qs.all (fun q => x q == y q) then ptraceSet qs ρ x y else 0) :=
   pauli_twirl conj I hI hcI qs hn ρ x y
 
 /-- `G ρ G†` of an uncontrolled gate on any ordered duplicate-free tuple as a double sum over
